@@ -19,9 +19,9 @@ import (
 
 func init() {
 	ev.Register(&ev.Check{
-		ID:    "C08",
-		Level: "exploration",
-		Rule: "node kinds {integer,float,string,boolean,null,{},{\"k\":1},[],[1],@T} x positions {root, property, array element} x ALL subsets of <= 3 (thorough 4) of the 18 rule names + one unknown name + every duplicated name x parameter variants (ordered/equal/inverted pairs, true/false flags, matching/mismatching types, satisfied/violated by the example) x ALL permutations of the chosen rules. Oracles: (1) permutation invariance of Check's verdict (reference-free); (2) the reference applicability predicate written from the statement (three-valued) incl. 'the example obeys its own rules'. Non-trivial = distinct (kind, position, rule multiset) with >= 1 rule; evaluations count compilations.",
+		ID:             "C08",
+		Level:          "exploration",
+		Rule:           "node kinds {integer,float,string,boolean,null,{},{\"k\":1},[],[1],@T} x positions {root, property, array element} x ALL subsets of <= 3 (thorough 4) of the 18 rule names + one unknown name + every duplicated name x parameter variants (ordered/equal/inverted pairs, true/false flags, matching/mismatching types, satisfied/violated by the example) x ALL permutations of the chosen rules. Oracles: (1) permutation invariance of Check's verdict (reference-free); (2) the reference applicability predicate written from the statement (three-valued) incl. 'the example obeys its own rules'. Non-trivial = distinct (kind, position, rule multiset) with >= 1 rule; evaluations count compilations.",
 		Run:            run,
 		Replay:         replay,
 		QuickBudget:    80 * time.Second,
